@@ -337,3 +337,77 @@ func VerifC16_MatchConditionShapes() {
 	}
 	verifAcceptedRuns(tc)
 }
+
+// VerifC12_BatchedRecordsStayIntact: one transform instance (as an extraction
+// step of the input, where records are batched before anything serializes
+// them) processes two records one after the other, for each transform type
+// that writes field values; the message of the second record has a symbolic
+// length class and symbolic bytes at the places that matter (a backslash, a
+// digit, an '@'): afterwards the FIRST record still holds exactly what a
+// fresh instance produces for it alone - its field values do not live in
+// scratch memory that the next record overwrites.
+//
+//verif:reach done
+//verif:paths 100000
+func VerifC12_BatchedRecordsStayIntact() {
+	var tc verifTC
+	switch sym.Choice("transform", 7) {
+	case 0:
+		tc = verifTC{Value: &taddfields.Config{Fields: map[string]string{"tag": "a=$app l=$level"}}}
+	case 1:
+		tc = verifTC{Value: &tunescape.Config{Key: "msg"}}
+	case 2:
+		tc = verifTC{Value: &tredactemail.Config{Key: "msg", MetricLabel: "r"}}
+	case 3:
+		c := &textractspecial.Config{Key: "msg", DestKey: "tag", Pattern: "\\[*\\]", MaxLength: 10}
+		c.Type = "extractHead"
+		tc = verifTC{Value: c}
+	case 4:
+		tc = verifTC{Value: &ttruncate.Config{Key: "msg", MaxLength: 4, Suffix: ".."}}
+	case 5:
+		tc = verifTC{Value: &treplace.Config{Key: "msg", Pattern: "[0-9]+", Replacement: "N"}}
+	case 6:
+		tc = verifTC{Value: &tmapvalue.Config{Key: "level", Mapping: map[string]string{"inf": "I"}, DefaultValue: "?"}}
+	}
+	sym.Assert(bsupport.VerifyTransformConfigs([]verifTC{tc}, verifProgSchema, "t") == nil, "configuration accepted")
+	second := []byte("[yy2] c\\td ann@host.org 3456 and some more text")
+	second = second[:[]int{12, 24, len(second)}[sym.Choice("secondLen", 3)]]
+	second[7] = sym.Byte("b7") // the backslash position
+	second[5] = sym.Byte("b5")
+	inputs := []base.LogFields{
+		{"app1", "inf", "[x1] a\\nb bob@ex.com 12", ""},
+		{"ap2", "warning", string(second), ""},
+	}
+	mutable := func(in base.LogFields) base.LogFields {
+		out := make(base.LogFields, len(in))
+		for i, f := range in {
+			out[i] = util.StringFromBytes(append([]byte{}, f...))
+		}
+		return out
+	}
+	fresh := bsupport.NewTransformsFromConfig([]verifTC{tc}, verifProgSchema, logger.Root(), &verifCounters{})
+	alone := verifProgSchema.NewTestRecord1(mutable(inputs[0]))
+	alone.RawLength = 30
+	bsupport.RunTransforms(alone, fresh)
+	want := make([]string, len(alone.Fields))
+	for f := range alone.Fields {
+		want[f] = string(append([]byte{}, alone.Fields[f]...))
+	}
+	steps := bsupport.NewTransformsFromConfig([]verifTC{tc}, verifProgSchema, logger.Root(), &verifCounters{})
+	r1 := verifProgSchema.NewTestRecord1(mutable(inputs[0]))
+	r2 := verifProgSchema.NewTestRecord1(mutable(inputs[1]))
+	r1.RawLength, r2.RawLength = 30, 30
+	bsupport.RunTransforms(r1, steps)
+	bsupport.RunTransforms(r2, steps) // obligation: no panic for any second record
+	for f := range want {
+		sym.Assert(r1.Fields[f] == want[f], "a record still held in a batch keeps its own field values while the same transform instance processes the next record")
+	}
+	sym.Reach("done")
+}
+
+// VerifC14_BatchedRecordsStayIntact: the same run read for C14 (text outside the redacted spans is preserved - also
+// after the transform has moved on to the next record).
+//
+//verif:reach done
+//verif:paths 100000
+func VerifC14_BatchedRecordsStayIntact() { VerifC12_BatchedRecordsStayIntact() }
